@@ -671,7 +671,8 @@ impl<'a, 'ast> Visit<'ast> for FnScan<'a> {
             };
             if let Some(syn::Expr::MethodCall(m)) = top {
                 let name = m.method.to_string();
-                if let Some((_, tmpl)) = self.rules.after_method.iter().find(|(n, _)| *n == name).cloned() {
+                // a template that mentions the call's result (`r__`) needs the expression form: `{ let r__ = call; <ghost> r__ }`
+                if let Some((_, tmpl)) = self.rules.after_method.iter().find(|(n, t)| *n == name && !t.contains("r__")).cloned() {
                     let (rs, re) = brange(&*m.receiver);
                     let recv = self.src[rs..re].to_string();
                     let idx = match &*m.receiver {
